@@ -299,6 +299,7 @@ func (env *c19Env) apply(o c19Op) string {
 			msgs [][]byte
 			hs   []hash.Hasher
 			sig  crypto.Signature
+			parts []crypto.Signature
 		}
 		var jobs []job
 		for g := 0; g < G; g++ {
@@ -320,10 +321,38 @@ func (env *c19Env) apply(o c19Op) string {
 				j.pks, j.msgs, j.hs = append(j.pks, k.PublicKey()), append(j.msgs, m), append(j.hs, hh)
 			}
 			j.sig, _ = crypto.AggregateBLSSignatures(sigs)
+			j.parts = sigs
 			if ok, err := crypto.VerifyBLSSignatureManyMessages(j.pks, j.sig, j.msgs, j.hs); !ok || err != nil {
 				return "stress-job-invalid-when-alone"
 			}
 			jobs = append(jobs, j)
+		}
+		// the aggregation feeding those verifications, after FAILED aggregations (a right-length string that
+		// is not a point, a wrong length, an empty list): every goroutine aggregates its own list and must get
+		// what it gets alone (scratch memory recycled by an error path would be shared here)
+		for round := 0; round < 4; round++ {
+			_, _ = crypto.AggregateBLSSignatures([]crypto.Signature{jobs[0].sig, env.bad[0]})
+			_, _ = crypto.AggregateBLSSignatures([]crypto.Signature{env.bad[0]})
+			_, _ = crypto.AggregateBLSSignatures([]crypto.Signature{jobs[1].sig, env.bad[1]})
+			_, _ = crypto.AggregateBLSSignatures(nil)
+			startA := make(chan struct{})
+			for g := 0; g < G; g++ {
+				wg.Add(1)
+				go func(j job) {
+					defer wg.Done()
+					<-startA
+					for r := 0; r < 25; r++ {
+						a, err := crypto.AggregateBLSSignatures(j.parts)
+						if err != nil || !bytes.Equal(a, j.sig) {
+							mu.Lock()
+							bad++
+							mu.Unlock()
+						}
+					}
+				}(jobs[g])
+			}
+			close(startA)
+			wg.Wait()
 		}
 		for g := 0; g < G; g++ {
 			wg.Add(1)
